@@ -73,7 +73,9 @@ pub fn run_hostile(a: &Args) {
                     let hex: String = p.bytes().map(|b| format!("{b:02x}")).collect(); lines.push(format!("filex {hex} 0 1 r-x"));
                 }
             }
-            3 => { lines.push(format!("chain {} {}", rng.range(1, 6), rng.range(0, 2))); }
+            // the first two worlds of this kind are fixed: a CYCLIC list and a list cut by the end of its mapping, reached through
+            // well-formed auxiliary values (the walk itself has to end)
+            3 => { lines.push(format!("chain {} {}", rng.range(1, 6), if case == 3 { 1 } else if case == 9 { 2 } else { rng.range(0, 2) })); }
             5 if case == 5 => { // K2: a mapped file whose path starts with /SYSV (procfs-core slices path[5..13])
                 let p = "/SYSVab".to_string();
                 if std::fs::write(&p, vec![0u8; 4096]).is_ok() { k2 = Some(RootFile(p.clone())); let hex: String = p.bytes().map(|b| format!("{b:02x}")).collect(); lines.push(format!("filex {hex} 0 1 r--")); }
@@ -98,7 +100,8 @@ pub fn run_hostile(a: &Args) {
         let (sp, ip) = *rng.pick(&regs);
         let use_crash = kind != 1 || rng.chance(1, 2);
         let (limit, sanitize, skip) = (rng.chance(1, 3), rng.chance(1, 2), rng.chance(1, 3));
-        let direct = match kind { 3 => Some(DirectAuxvDumpInfo { program_header_count: *rng.pick(&[2u64, 0, 1, 100000, u64::MAX, u64::MAX / 56 + 1]), program_header_address: *rng.pick(&[chain, chain + 1, chain + 8192 - 40, 0x10, u64::MAX - 8]), linux_gate_address: *rng.pick(&[0u64, 1, u64::MAX]), entry_address: *rng.pick(&[0u64, u64::MAX, anon0]) }),
+        let direct = match kind { 3 if case == 3 || case == 9 => Some(DirectAuxvDumpInfo { program_header_count: 2, program_header_address: chain, linux_gate_address: 0, entry_address: 0 }),
+                                  3 => Some(DirectAuxvDumpInfo { program_header_count: *rng.pick(&[2u64, 0, 1, 100000, u64::MAX, u64::MAX / 56 + 1]), program_header_address: *rng.pick(&[chain, chain + 1, chain + 8192 - 40, 0x10, u64::MAX - 8]), linux_gate_address: *rng.pick(&[0u64, 1, u64::MAX]), entry_address: *rng.pick(&[0u64, u64::MAX, anon0]) }),
                                   4 => Some(DirectAuxvDumpInfo { program_header_count: rng.next(), program_header_address: rng.next(), linux_gate_address: rng.next(), entry_address: rng.next() }), _ => None };
         let desc = format!("kind {kind} crash {use_crash} sp {sp:x} ip {ip:x} limit {limit} sanitize {sanitize} skip {skip} direct {direct:?}");
         let ino = unsafe { libc::inotify_init1(libc::IN_NONBLOCK) };
